@@ -319,3 +319,91 @@ pub fn verify_function(t: &Tables, fi: usize) -> FnReport {
 pub fn verify_all(t: &Tables) -> Vec<FnReport> {
     (0..t.functions.len()).map(|fi| verify_function(t, fi)).collect()
 }
+
+/// Closure of the tables themselves: every type/tuple id mentioned *inside* the type and tuple
+/// tables (union members, callable parts, process parts, partial fields, tuple field types,
+/// builtin signatures) is in range, and the id graph is well-founded — recursion is expressed by
+/// `Cycle` nodes, never by an id that reaches itself, so a cyclic id graph is a dangling index in
+/// disguise (and makes every consumer that walks a type loop forever).
+pub fn verify_tables(t: &Tables) -> Vec<String> {
+    let mut out = vec![];
+    let nt = t.types.len();
+    let ntu = t.tuples.len();
+    let children = |ty: &Type| -> Vec<(bool, usize)> {
+        // (is_tuple_id, id)
+        match ty {
+            Type::Tuple(id) => vec![(true, *id)],
+            Type::Partial { fields, .. } => fields.iter().map(|(_, id)| (false, *id)).collect(),
+            Type::Callable { parameter, result, receive } => vec![(false, *parameter), (false, *result), (false, *receive)],
+            Type::Union(ids) => ids.iter().map(|id| (false, *id)).collect(),
+            Type::Process { send, receive } => send.iter().chain(receive.iter()).map(|id| (false, *id)).collect(),
+            _ => vec![],
+        }
+    };
+    for (i, ty) in t.types.iter().enumerate() {
+        for (is_tuple, id) in children(ty) {
+            if is_tuple && id >= ntu {
+                out.push(format!("type {} refers to tuple {} of {}", i, id, ntu));
+            }
+            if !is_tuple && id >= nt {
+                out.push(format!("type {} refers to type {} of {}", i, id, nt));
+            }
+        }
+    }
+    for (i, tu) in t.tuples.iter().enumerate() {
+        for (_, id) in &tu.fields {
+            if *id >= nt {
+                out.push(format!("tuple {} has a field of type {} of {}", i, id, nt));
+            }
+        }
+    }
+    for (i, b) in t.builtins.iter().enumerate() {
+        if b.param_type >= nt || b.result_type >= nt {
+            out.push(format!("builtin {} signature ({}, {}) of {}", i, b.param_type, b.result_type, nt));
+        }
+    }
+    if !out.is_empty() {
+        return out;
+    }
+    // well-foundedness over the combined graph (type -> type | tuple, tuple -> type)
+    // node numbering: types 0..nt, tuples nt..nt+ntu
+    let n = nt + ntu;
+    let succ = |v: usize| -> Vec<usize> {
+        if v < nt {
+            children(&t.types[v]).into_iter().map(|(is_tuple, id)| if is_tuple { nt + id } else { id }).collect()
+        } else {
+            t.tuples[v - nt].fields.iter().map(|(_, id)| *id).collect()
+        }
+    };
+    let mut colour = vec![0u8; n]; // 0 white, 1 on stack, 2 done
+    for root in 0..n {
+        if colour[root] != 0 {
+            continue;
+        }
+        let mut stack: Vec<(usize, Vec<usize>, usize)> = vec![(root, succ(root), 0)];
+        colour[root] = 1;
+        while let Some((v, ss, k)) = stack.last_mut() {
+            if *k < ss.len() {
+                let w = ss[*k];
+                *k += 1;
+                match colour[w] {
+                    0 => {
+                        colour[w] = 1;
+                        let sw = succ(w);
+                        stack.push((w, sw, 0));
+                    }
+                    1 => {
+                        let name = |x: usize| if x < nt { format!("type {}", x) } else { format!("tuple {}", x - nt) };
+                        out.push(format!("{} reaches itself through {} (id cycle without a Cycle node)", name(w), name(*v)));
+                        return out;
+                    }
+                    _ => {}
+                }
+            } else {
+                colour[*v] = 2;
+                stack.pop();
+            }
+        }
+    }
+    out
+}
